@@ -8,6 +8,26 @@ Local Open Scope Z_scope.
 Definition headings (k : nat) (bs : list block) : list string :=
   flat_map (fun b => match b with H k' t => if Nat.eqb k' k then [t] else [] | _ => [] end) bs.
 
+(* the headings a CommonMark reader sees: the ATX headings, plus every paragraph line that is
+   DIRECTLY followed by a line of dashes (a setext level-2 heading; with a blank line - LF - in
+   between the dashes are a thematic break) *)
+Fixpoint cm_headings (k : nat) (bs : list block) : list string :=
+  match bs with
+  | [] => []
+  | H k' t :: r => if Nat.eqb k' k then t :: cm_headings k r else cm_headings k r
+  | Para t :: ((Rule :: _) as r) => if Nat.eqb 2 k then t :: cm_headings k r else cm_headings k r
+  | _ :: r => cm_headings k r
+  end.
+(* no paragraph is directly followed by a rule ([p]: the previous block was a paragraph) *)
+Fixpoint sf (p : bool) (bs : list block) : bool :=
+  match bs with
+  | [] => true
+  | Rule :: r => andb (negb p) (sf false r)
+  | Para _ :: r => sf true r
+  | _ :: r => sf false r
+  end.
+Definition setext_free (bs : list block) : bool := sf false bs.
+
 Definition tables (bs : list block) : list block :=
   filter (fun b => match b with Table _ _ => true | _ => false end) bs.
 
